@@ -24,9 +24,9 @@ BOUNDS = {
     'quick': 'between-species: 1 frame, one atom with coordinates any reals in [0,1)^3 against 1-2 concrete atoms of the other species on '
              'cubic5 / hex558, (max_dist, resolution) in {(2.0, 0.5), (3.0, 1.0)}; per-state RDF: 2 frames, diffusing atom with symbolic '
              'states over 3 labelled sites (labels A,A,B) and one symbolic coordinate axis, 2 other atoms (S and Si)',
-    'thorough': 'additionally tric lattice, 2 symbolic atoms, 2 frames; per-state RDF with 3 frames',
+    'thorough': 'additionally tric / rhombohedral lattices, 2 frames for the species-pair RDF; per-state RDF (2 frames) on cubic, hexagonal, triclinic cells',
 }
-OUTSIDE = ['more than 3 atoms / 3 frames', 'binary64 rounding of np.arange bin edges (read as exact rationals)']
+OUTSIDE = ['more than 3 atoms; per-state RDF with 3 frames (> 25 min)', 'binary64 rounding of np.arange bin edges (read as exact rationals)']
 ASSUMPTIONS = [
     'Lattice.get_all_distances contract: componentwise reduction of the difference to [-1/2,1/2), then minimum of the metric-tensor '
     'quadratic form over the 27 neighbouring images (27-image lemma checked per pool lattice by selftest)',
@@ -310,7 +310,7 @@ def jobs(tier, seed):
     else:
         bj = [('cubic5', o1, 2.0, 0.5, 1), ('cubic5', o2, 3.0, 1.0, 1), ('hex558', o1, 3.0, 1.0, 1), ('tric', o1, 3.0, 1.0, 1),
               ('cubic5', o1, 2.0, 1.0, 2), ('rhomb60', o1, 3.0, 1.5, 1)]
-        sj = [('cubic5', 2, 2.0, 1.0), ('cubic5', 3, 2.0, 1.0), ('hex558', 2, 3.0, 1.5)]
+        sj = [('cubic5', 2, 2.0, 1.0), ('hex558', 2, 3.0, 1.5), ('tric', 2, 3.0, 1.5)]
     for lat, oth, md, res, fr in bj:
         js.append(dict(name=f'between_{lat}_{len(oth)}other_md{md}_res{res}_F{fr}', fn='between_job',
                        params=dict(lattice=lat, others=oth, max_dist=md, resolution=res, frames=fr)))
